@@ -523,8 +523,15 @@ func (env *Env) evalField(x EField) Val {
 	// ghost fields
 	if g, ok := e.contracts.Ghosts[x.Name]; ok {
 		ref := v.T
-		if v.K == KIface {
+		switch v.K {
+		case KIface:
 			ref = v.Fs[1].T
+		case KSlice:
+			// ghost fields of a slice belong to its backing array
+			ref = v.Fs[0].T
+		}
+		if ref == "" {
+			cerr("ghost field %s of a value without a reference", x.Name)
 		}
 		return e.ghostLoad(env.st, g, ref)
 	}
